@@ -8,7 +8,8 @@ CHECKS = {
                 "family contract; postconditions state exact partition, order, adapter placement and the non-adaptive main stage.",
         "note": "floats in int(c*n) follow a monotone relative-error rounding model (not bit-exact); stager precondition "
                 "n_init_slow_window_iter>=1, multiplier>=1; stage labels are modelled through the symbolic fields of their f-strings (pairwise distinct per window); z3 trusted."
-                " Added in round 5: integrality of the running window size / counter is part of the while-loop invariant (non-integer slow_window_multiplier).",
+                " Added in round 5: integrality of the running window size / counter is part of the while-loop invariant (non-integer slow_window_multiplier)."
+                " Added in round 6: loop contracts are anchored to the kind of loop they describe and follow it when ordinals shift; an AdaptationError of any adapter's finalize stops the run.",
     },
 }
 CHECKS["C20"] = {
@@ -21,7 +22,8 @@ CHECKS["C20"] = {
             "log space, compare like the reals and never skip an accumulation.",
     "note": "libm accuracy/monotonicity model and EXP/LOG axioms are trusted (A3); 'near machine precision' is established as per-branch conditioning, not as a full "
             "forward error bound; mixed operations with plain numbers are specified over reals only (their plain value must be representable)."
-            ' Added in round 5: math.isclose modelled over the reals.',
+            ' Added in round 5: math.isclose modelled over the reals.'
+            ' Added in round 6: IEEE model: w += plain zero is the identity on the log value for any magnitude.',
 }
 CHECKS["C06"] = {
     "engine": "pyvc",
@@ -56,11 +58,12 @@ CHECKS["C17"] = {
     "design_ref": "DESIGN.md section 7 C17",
     "text": "Dual averaging update/finalize/initialize are proved equal to the documented recursion for all settings and histories (one-step contract, induction over the history); the initial "
             "step-size search loop is cut by an invariant proving that it returns only at a log-2 crossing and raises only AdaptationError; Welford updates and the Chan merge are proved to "
-            "maintain ghost batch sums (variance adapter: loop invariant over any number of chains, so the result is independent of split and order; covariance adapter: 1-3 chains), "
+            "maintain ghost batch sums (variance and covariance adapter: loop invariants over ANY number of chains, so the result is independent of split and order; the covariance merge additionally for 1-3 explicit chains), "
             "followed by exact regularisation, inverse metric and momentum refresh under the new metric.",
     "note": "real arithmetic in the contracts; the large-offset clause is covered by a BOUNDED native check (offset 1e8, 9 partitions x 3 settings) only; arrays lifted component-wise (1 resp. 2 generic components); (1/m)^kappa and sqrt uninterpreted; matrix "
             "constructors and sample_momentum are contract stubs; precondition: every chain contributes >= 1 update."
-            ' Added in round 5: finalize with ANY user reducer (uninterpreted) for lists of 1-3 chains; the momentum refresh must go through system.sample_momentum (matrix stub with sqrt / generator stub with standard_normal so that an inline draw is a decided failure).',
+            ' Added in round 5: finalize with ANY user reducer (uninterpreted) for lists of 1-3 chains; the momentum refresh must go through system.sample_momentum (matrix stub with sqrt / generator stub with standard_normal so that an inline draw is a decided failure).'
+            ' Added in round 6: covariance merge for ANY number of chains by a loop invariant over ghost sums (was bounded to 1-3 chains); static frame: no adapter method writes to the shared adapter object.',
 }
 CHECKS["C04"] = {
     "engine": "pyvc+ncalg",
@@ -72,7 +75,8 @@ CHECKS["C04"] = {
     "note": "convergence (liveness) not claimed; constraint function/Jacobian uninterpreted (A4); dh2_flow_dmom and Gram inverse are contract stubs (C07/C10); the closed-form cotangent "
             "projection identity J M^-1 P p = 0 belongs to the symbolic-array engine (listed in evidence notes when not built); reals for floats."
             ' Added in rounds 3-4: the closed-form cotangent projection, Gram matrix and projected momentum draw for ALL dimensions n, k and every metric object satisfying the matrix contract (Engine D); cache-key injectivity; the stub system exposes constr so that a skipped retraction is visible.'
-            ' Added in round 5: the norm contract rejects unset vectors (TypeError is not a ConvergenceError); frame: every projection solve receives the configured tolerances and a step leaves projection_solver_kwargs unchanged.',
+            ' Added in round 5: the norm contract rejects unset vectors (TypeError is not a ConvergenceError); frame: every projection solve receives the configured tolerances and a step leaves projection_solver_kwargs unchanged.'
+            ' Added in round 6: C07\'s flow-Jacobian obligations (dh2_flow_dmom == Jacobian of the real h2_flow, also after the metric was replaced between two uses with the same time step) are imported as obligations instead of being trusted.',
 }
 CHECKS["C12"] = {
     "engine": "pyvc",
@@ -84,7 +88,8 @@ CHECKS["C12"] = {
     "note": "faults are not injected into the solver set-up calls on the previous (already validated) state; transitions' handling of IntegratorError / NaN energies is covered by the "
             "transition contracts when built (see evidence notes); multi-iteration chain continuation rests on C13's loop invariant."
             ' Added in rounds 3-4: sub-step errors propagate; step() raises only error kinds every transition declares; error flags by class membership incl. subclasses; contract-less loops are unrolled (bounded) and reported undecided.'
-            ' Added in round 5: a NaN Hamiltonian of a new tree leaf ends the trajectory as a divergence (returned as NaN or surfaced as LinAlgError).',
+            ' Added in round 5: a NaN Hamiltonian of a new tree leaf ends the trajectory as a divergence (returned as NaN or surfaced as LinAlgError).'
+            ' Added in round 6: errors raised inside ConstrainedLeapfrogIntegrator._step_b (retractions, projections) propagate unchanged.',
 }
 CHECKS["C09"] = {
     "engine": "pyvc + frames",
@@ -98,7 +103,8 @@ CHECKS["C09"] = {
     "note": "small-model argument (keys only compared for equality); id() injective; user functions pure and returning fresh objects; static analysis tracks reads through "
             "self.<m>(state)/super() calls only."
             ' Added in rounds 3-4: cache-key injectivity, pickling leaves the live family intact, aliasing / value-comparison predicates of numpy answer both ways, functools.cache stub.'
-            ' Added in round 5: no two states share a variable array (source x copy read-only flags); the library\'s own derivative methods evaluated twice at one state leave the cached gradient intact (Engine B, imported).',
+            ' Added in round 5: no two states share a variable array (source x copy read-only flags); the library\'s own derivative methods evaluated twice at one state leave the cached gradient intact (Engine B, imported).'
+            ' Added in round 6: cache keys of a clone of an already used system differ from the original\'s.',
 }
 CHECKS["C18"] = {
     "engine": "pyvc + frames",
@@ -109,7 +115,8 @@ CHECKS["C18"] = {
             "valid entry (so n steps cost n(+1)), the value returned alongside the gradient is reused, momentum refresh keeps position-dependent entries.",
     "note": "tree transitions: bound n+2 from a fresh start state is stated, not proved here; metric stub; small-model argument as in C09."
             ' Added in rounds 3-4: encapsulation frame (only states.py touches the memo tables); a memoised call leaves other entries alone; auxiliary outputs name memoised methods; aliasing predicates fork.'
-            ' Added in round 5: dict.fromkeys (one shared value object) and itertools.zip_longest modelled; missing members of builtin type stand-ins are UNDECIDED, never an AttributeError of the program.',
+            ' Added in round 5: dict.fromkeys (one shared value object) and itertools.zip_longest modelled; missing members of builtin type stand-ins are UNDECIDED, never an AttributeError of the program.'
+            ' Added in round 6: np.isfinite of a user value forks both ways.',
 }
 CHECKS["C13"] = {
     "engine": "pyvc",
@@ -122,7 +129,8 @@ CHECKS["C13"] = {
     "note": "arrays are ghost row logs (numpy assignment / allocation / open_memmap trusted, A12); memmap<->path pytree conversion is not modelled (stubs); transitions/adapters/trace "
             "functions are contract stubs; multi-process branch only up to the choice of chain function (A14)."
             ' Added in rounds 3-4: body of _open_new_memmap; parallel collation for every pickup order; BOUNDED native rows-vs-states run with transitions that update their argument in place; loop-carried variables the contract does not describe are unknowns.'
-            ' Added in round 5: trace array dtype holds the traced values exactly (float64, float32, complex, integer, boolean traces); after a stage dropped a chain the survivors keep their own iterators, generators and arrays (or sample_chains raises).',
+            ' Added in round 5: trace array dtype holds the traced values exactly (float64, float32, complex, integer, boolean traces); after a stage dropped a chain the survivors keep their own iterators, generators and arrays (or sample_chains raises).'
+            ' Added in round 6: interrupt scenarios of the parallel collation harness imported.',
 }
 CHECKS["C14"] = {
     "engine": "pyvc + frames",
@@ -134,7 +142,8 @@ CHECKS["C14"] = {
     "note": "A14 (multiprocessing semantics) and A10 (numpy generators) trusted; 'frame disjointness + A14 => schedule independence' is an informal inference; real OS scheduling is not explored; "
             "known finding D19 (base-generator draws depend on the chain count)."
             ' Added in rounds 3-4: shared-object frame (no write to self outside __init__) over adapters, transitions and integrators; generators with both jumped and a seed sequence must be derived from the state.'
-            ' Added in round 5: whole bit-generator state (stream position and buffered half-word) flows back from the workers; RELATIONAL obligation over two executions of the real sample_chains + _get_per_chain_rngs with 2 and 3 chains: the stream of chain c in every stage does not depend on the chain count, and no stream is shared or handed out twice. Harness overrides are no longer cached across paths (DESIGN 13.6).',
+            ' Added in round 5: whole bit-generator state (stream position and buffered half-word) flows back from the workers; RELATIONAL obligation over two executions of the real sample_chains + _get_per_chain_rngs with 2 and 3 chains: the stream of chain c in every stage does not depend on the chain count, and no stream is shared or handed out twice. Harness overrides are no longer cached across paths (DESIGN 13.6).'
+            ' Added in round 6: chains given one repeated initial array object still get pairwise distinct state objects.',
 }
 CHECKS["C15"] = {
     "engine": "pyvc",
@@ -145,7 +154,8 @@ CHECKS["C15"] = {
             "normally without starting later stages or finalizing adapters on partial chain lists.",
     "note": "worker/parent interrupt propagation through multiprocessing queues under A14 only; a second interrupt during clean-up is out of scope."
             ' Added in rounds 3-4: the interrupt reaching every worker; a blocking get on an empty progress queue after all workers returned is a termination violation; memmap fill; logger call arguments are evaluated.'
-            ' Added in round 5: the parent process itself receives the interrupt inside its k-th wait on the progress queue; contract of the real _ProxySequenceProgressBar.__enter__/__exit__ (queues progress tuples only).',
+            ' Added in round 5: the parent process itself receives the interrupt inside its k-th wait on the progress queue; contract of the real _ProxySequenceProgressBar.__enter__/__exit__ (queues progress tuples only).'
+            ' Added in round 6: unpacking a non-iterable instance is a TypeError of the program (decided, was undecided).',
 }
 CHECKS["C10"] = {
     "engine": "symla+ncalg",
@@ -163,7 +173,8 @@ CHECKS["C10"] = {
     "note": "Engine B shapes are fixed (dimension 1-3); Engine D is dimension-generic but abstracts entry-level code (diagonal(), packed-LU rescaling, block split/concatenate, SoftAbs elementwise functions stay with Engine B); "
             "its shims record invertibility / definiteness hypotheses (the library's own preconditions); the correspondence between a rule name in vf/ncalg.py and its Lean statement is by reading; LAPACK shim table, sympy and sign decisions of transcendental expressions by sampling are "
             "trusted; obligations sympy cannot simplify but that vanish at all sampled points are reported as bounded (numeric-only), never as proved; floats as reals."
-            ' Added in round 5: caller-supplied upper / lower triangular factors of dense definite matrices (Engine D for all n, Engine B); half-supplied eigendecompositions in another column order; SciPy cho_solve modelled in Engine D; evidence lists obligations grouped by subject (full list in evidence_detail/C10.tsv).',
+            ' Added in round 5: caller-supplied upper / lower triangular factors of dense definite matrices (Engine D for all n, Engine B); half-supplied eigendecompositions in another column order; SciPy cho_solve modelled in Engine D; evidence lists obligations grouped by subject (full list in evidence_detail/C10.tsv).'
+            ' Added in round 6: negative multiples of negative definite matrices stay usable as positive definite (found and repaired defect D20, fix d98e214); LAPACK overwrite_a / overwrite_b permissions modelled adversarially (operand poisoned).',
 }
 CHECKS["C11"] = {
     "engine": "symla",
@@ -174,7 +185,8 @@ CHECKS["C11"] = {
             "parameter values at the fixed shapes, have the parameter's shape, vanish outside a triangular parameter's triangle and are symmetric for symmetric-array parameters.",
     "note": "fixed shapes (dimension 2, rank-1 updates, 3 blocks); shim table, sympy differentiation/simplification trusted; reals for floats; numeric-only equalities are reported as bounded."
             ' Added in rounds 3-4: nested block parameter => nested gradient; upper-factor conventions (cho_solve shim); BOUNDED native stand-ins for dtype independence and gradient freshness (Engine B computes over the reals).'
-            ' Added in round 5: blocks that are equal as matrices but built from different parameters (R, -R); negative factor diagonals; symbolic arrays hash by contents (hash_array stand-in) so that code keyed on matrix equality sees the collisions float arrays produce.',
+            ' Added in round 5: blocks that are equal as matrices but built from different parameters (R, -R); negative factor diagonals; symbolic arrays hash by contents (hash_array stand-in) so that code keyed on matrix equality sees the collisions float arrays produce.'
+            ' Added in round 6: SoftAbs with unregularised eigenvalues w and -w; a gradient that lets LAPACK overwrite an aliased parameter fails the next gradient\'s obligation (poisoned operand).',
 }
 CHECKS["C19"] = {
     "engine": "symla + frames",
@@ -186,7 +198,8 @@ CHECKS["C19"] = {
             "differing defining option implies unequal objects or equal arrays, and copy / deepcopy / pickle equal the original.",
     "note": "value-semantics clauses are exercised on numeric instances (complete over classes and listed options, sampled over values: reported as bounded); hash_array and numpy writeable "
             "flags trusted; project_onto_cotangent_space mutating its `mom` argument is a system method and outside this property."
-            ' Added in rounds 3-4 (bounded, native): derived objects do not inherit cached attributes; properties identical on repeated evaluation in any order incl. partially supplied eigendecompositions; equality under colliding cached hashes.',
+            ' Added in rounds 3-4 (bounded, native): derived objects do not inherit cached attributes; properties identical on repeated evaluation in any order incl. partially supplied eigendecompositions; equality under colliding cached hashes.'
+            ' Added in round 6: BOUNDED native: stored parameters are read-only whatever their memory layout (C, Fortran, strided); conversions with copy semantics (np.array, np.copy) do not alias the object.',
 }
 CHECKS["C05"] = {
     "engine": "symla+ncalg",
@@ -209,7 +222,8 @@ CHECKS["C07"] = {
             "are traced for a symbolic real time: kick and drift formulas, Hamilton's ODE by symbolic time-differentiation, Phi(s)oPhi(t)=Phi(s+t), Phi(-t)oPhi(t)=id, energy conservation, and "
             "dh2_flow_dmom equal to the Jacobian blocks of the traced flow for both signs of t.",
     "note": "reals for floats; dimension 2; trig identities by sympy; dense metrics whose eigendecomposition comes from numpy eigh are represented by the eigendecomposed class."
-            ' Added in rounds 3-4: Euclidean drift, group law, inverse, energy conservation and dh2_flow_dmom for ALL dimensions (Engine D); repeated-evaluation, read-set and cache-protocol obligations imported; implicitly sized non-identity metric.',
+            ' Added in rounds 3-4: Euclidean drift, group law, inverse, energy conservation and dh2_flow_dmom for ALL dimensions (Engine D); repeated-evaluation, read-set and cache-protocol obligations imported; implicitly sized non-identity metric.'
+            ' Added in round 6: np.linalg.pinv / inv modelled exactly; BOUNDED native flows and flow Jacobians incl. nearly isotropic metrics and long intervals (tolerance-guarded fast paths have no counterpart over the reals).',
 }
 CHECKS["C08"] = {
     "engine": "symla+ncalg+pyvc",
